@@ -2199,6 +2199,7 @@ def run(ctx):
     ctx.say(f"identity reuse / in-place refill: {len(ritems)} (transition, shape-dtype pattern, depth, first call) items")
     ctx.pmap(reuse_item, sorted(ritems, key=lambda it: -len(reuse_members(it[0])) ** it[2]), chunk=1, label="identity-reuse", seed=ctx.seed)
     exr = ctx.tally.extra
+    ctx.say("identity reuse: " + ", ".join(f"{k[6:]}={exr[k]}" for k in sorted(exr) if k.startswith("reuse_")))
     if exr["reuse_rebuild_items_with_id_reuse_observed"] < exr["reuse_rebuild_items"] or exr["reuse_rebuild_items"] == 0:
         raise Broken("identity reuse: in at least one rebuild item no new array ever landed at the address (id) of the dropped one; the family would pass vacuously")
     if 2 * exr["reuse_rebuild_array_id_reused"] < exr["reuse_rebuild_transitions"]:
